@@ -329,6 +329,10 @@ def c08(A, ctx, tier):
     blockpen.r_proxfoc_block(A, ctx, dict(floor=4, select=lambda c: c.find_method("subdiff_distance") is None
                                           or c.find_method("subdiff_distance").cls.name == "BasePenalty"),
                              rule="R-PROX-SCORE", parts=("foc", "zero"))
+    # the fixed-point score |w - prox(w - grad / L)| (ws_strategy / opt_strategy "fixpoint", available for every
+    # penalty) is zero exactly at stationary points only if the prox satisfies the first-order condition of the
+    # penalty's own value(): the same value() the subdifferential score is derived from
+    penalgebra.r_proxfoc(A, ctx, dict(floor=30), rule="R-PROX-SCORE-SCALAR")
     extents.r_uninit(A, ctx, dict(floor=0))
     ctx.assume("that the regular subdifferential is the right notion at non-convex kinks is a "
                "mathematical fact, not decided")
